@@ -312,7 +312,10 @@ def render_elem(e):
                 + _lst("TRANSFORMER_IN_OBJECTS", r.get(p + "/TRANSFORMER_IN_OBJECTS.identifier_list"))
                 + _lst("TRANSFORMER_OUT_OBJECTS", r.get(p + "/TRANSFORMER_OUT_OBJECTS.identifier_list")) + " /end TRANSFORMER")
     if k == "USER_RIGHTS":
-        return f"/begin USER_RIGHTS {n}" + _lst("REF_GROUP", r.get("USER_RIGHTS/REF_GROUP.identifier_list")) + " /end USER_RIGHTS"
+        names = r.get("USER_RIGHTS/REF_GROUP.identifier_list") or []
+        if o.get("split_ref_group"):      # REF_GROUP is a repeatable block: one block per name
+            return f"/begin USER_RIGHTS {n}" + "".join(_lst("REF_GROUP", [x]) for x in names) + " /end USER_RIGHTS"
+        return f"/begin USER_RIGHTS {n}" + _lst("REF_GROUP", names) + " /end USER_RIGHTS"
     if k == "MOD_COMMON":
         return f"/begin MOD_COMMON {li}" + opt_kw("S_REC_LAYOUT", "MOD_COMMON/S_REC_LAYOUT.name") + " /end MOD_COMMON"
     if k == "VARIANT_CODING":
